@@ -4,25 +4,19 @@ package main
 
 import (
 	"bytes"
-	"context"
 	"encoding/hex"
 	"encoding/json"
 	"errors"
 	"fmt"
 	"go/ast"
-	"go/types"
 	"math/rand"
 	"os"
 	"path/filepath"
 	"strings"
 	"sync"
 	"text/template"
-	"time"
 
-	"github.com/rs/zerolog"
-	"github.com/vektra/mockery/v3/config"
 	"github.com/vektra/mockery/v3/template_funcs"
-	"golang.org/x/tools/go/packages"
 )
 
 // C11: Config.ParseTemplates in-process on generated expressions and layouts
@@ -47,6 +41,9 @@ type c11Input struct {
 	// real loader finds the interface and binds the variables; `iface.file` is the file that declares it
 	Module map[string]string `json:"module,omitempty"`
 	PkgArg string            `json:"pkgArg,omitempty"`
+	// (CLI cases) the interface has a `configs` list: this structname in the first entry (the case's own), another in
+	// a second entry; every entry is rendered with the variables of its own configuration
+	EntryStruct string `json:"entryStruct,omitempty"`
 }
 
 type c11 struct{}
@@ -158,6 +155,11 @@ func genC11Bind(r *rand.Rand, idx int) c11Input {
 	in.Values["pkgname"] = pick(r, []string{"{{.SrcPackageName}}_x", "p_{{ .InterfaceName | lower }}", "{{ base .InterfaceDir }}"})
 	in.Values["structname"] = pick(r, []string{"{{.Mock}}{{.InterfaceName}}", "S_{{ base .InterfaceFile }}_{{ .InterfaceDirRelative | replaceAll \"/\" \"_\" }}", "S_{{ replaceAll \"/\" \"_\" .SrcPackagePath }}"})
 	in.Values["template-schema"] = "none.schema.json"
+	if idx%3 == 1 {
+		in.EntryStruct = "Spy" + pr.iface
+		in.Values["structname"] = "Stub{{.InterfaceName}}"
+		in.Values["filename"] = pick(r, []string{"{{.StructName}}.probe", "x_{{ .StructName | lower }}.probe"})
+	}
 	return in
 }
 
@@ -172,9 +174,15 @@ func c11RunCLI(c *Ctx, in *c11Input, realCwd string) (res c11Result, panicked st
 	var cfg strings.Builder
 	fmt.Fprintf(&cfg, "template: %q\nrequire-template-schema-exists: false\nformatter: noop\nforce-file-write: true\n", strings.ReplaceAll(in.Template, "/CWD", realCwd))
 	for _, k := range c11Params {
+		if k == "structname" && in.EntryStruct != "" {
+			continue
+		}
 		fmt.Fprintf(&cfg, "%s: %q\n", k, in.Values[k])
 	}
 	fmt.Fprintf(&cfg, "packages:\n  %s:\n    interfaces:\n      %s:\n", in.PkgArg, in.Iface.Name)
+	if in.EntryStruct != "" {
+		fmt.Fprintf(&cfg, "        configs:\n          - structname: %q\n          - structname: %q\n", in.Values["structname"], in.EntryStruct)
+	}
 	files[".mockery.yml"] = cfg.String()
 	if err := writeFiles(mod, files); err != nil {
 		res.err = err
@@ -191,7 +199,7 @@ func c11RunCLI(c *Ctx, in *c11Input, realCwd string) (res c11Result, panicked st
 	}
 	if r.Exit != 0 {
 		if strings.Contains(r.Stderr, "infinite loop") {
-			res.err = config.ErrInfiniteLoop
+			res.err = errC11InfiniteLoop
 		} else {
 			res.err = fmt.Errorf("mockery failed: %s", lastLines(r.Stderr, 2))
 		}
@@ -203,6 +211,25 @@ func c11RunCLI(c *Ctx, in *c11Input, realCwd string) (res c11Result, panicked st
 		if _, ok := before[k]; !ok && strings.HasSuffix(k, ".probe") {
 			created = append(created, k)
 		}
+	}
+	if in.EntryStruct != "" {
+		// two entries, two files: the case observes the one of its own entry
+		if len(created) != 2 {
+			res.err = fmt.Errorf("two configs entries with different struct names and a file name that depends on the struct name: expected two new files, found %v", created)
+			return
+		}
+		var own []string
+		for _, f := range created {
+			b, _ := os.ReadFile(filepath.Join(mod, f))
+			if !strings.Contains(string(b), "STRUCT "+in.EntryStruct+"\n") {
+				own = append(own, f)
+			}
+		}
+		if len(own) != 1 {
+			res.err = fmt.Errorf("expected exactly one file without the second entry's mock, found %v of %v", own, created)
+			return
+		}
+		created = own
 	}
 	if len(created) != 1 {
 		res.err = fmt.Errorf("expected one new file, found %v", created)
@@ -221,42 +248,12 @@ func c11RunCLI(c *Ctx, in *c11Input, realCwd string) (res c11Result, panicked st
 	return
 }
 
+// the CLI reports the resolution cap in its log only
+var errC11InfiniteLoop = errors.New("infinite loop in template variables detected")
+
 type c11Result struct {
 	vals map[string]string
 	err  error
-}
-
-func c11Run(in *c11Input) (res c11Result, panicked string, hung bool) {
-	cfg := &config.Config{}
-	get := func(k string) *string { v := in.Values[k]; return &v }
-	cfg.Dir, cfg.FileName, cfg.PkgName, cfg.StructName, cfg.TemplateSchema = get("dir"), get("filename"), get("pkgname"), get("structname"), get("template-schema")
-	t := in.Template
-	cfg.Template = &t
-	cf := in.ConfigFile
-	cfg.ConfigFile = &cf
-	var iface *config.Interface
-	if in.Iface != nil {
-		iface = &config.Interface{Name: in.Iface.Name, FileName: in.Iface.File}
-	}
-	pkg := &packages.Package{PkgPath: in.SrcPkgPath, Name: in.SrcPkgName, Types: types.NewPackage(in.SrcPkgPath, in.SrcPkgName)}
-	done := make(chan struct{})
-	go func() {
-		defer close(done)
-		defer func() {
-			if r := recover(); r != nil {
-				panicked = fmt.Sprint(r)
-			}
-		}()
-		ctx := zerolog.Nop().WithContext(context.Background())
-		res.err = cfg.ParseTemplates(ctx, iface, pkg)
-	}()
-	select {
-	case <-done:
-	case <-time.After(10 * time.Second):
-		return res, "", true
-	}
-	res.vals = map[string]string{"dir": *cfg.Dir, "filename": *cfg.FileName, "pkgname": *cfg.PkgName, "structname": *cfg.StructName, "template-schema": *cfg.TemplateSchema}
-	return res, panicked, false
 }
 
 // documented bindings
@@ -338,6 +335,9 @@ func (c11) Run(c *Ctx, raw json.RawMessage) Case {
 	if in.Module != nil {
 		res, panicked, hung = c11RunCLI(c, &in, realCwd)
 	} else {
+		if !c11InProcAvailable {
+			return Case{Oracle: Oracle{OK: true}, NoModel: true, Tags: []string{"inprocess-unavailable"}}
+		}
 		res, panicked, hung = c11Run(&in)
 	}
 	for k, v := range res.vals {
@@ -356,7 +356,7 @@ func (c11) Run(c *Ctx, raw json.RawMessage) Case {
 		tags = append(tags, "cli-bind")
 	}
 	if res.err != nil {
-		if errors.Is(res.err, config.ErrInfiniteLoop) {
+		if c11IsInfiniteLoop(res.err) {
 			impl = map[string]any{"error": "infinite-loop"}
 			tags = append(tags, "infinite-loop")
 		} else {
